@@ -89,7 +89,18 @@ class Unbound:
 
 
 class OpaqueStr:
-    """an f-string or other string the engine does not look into"""
+    """an f-string or other string the engine does not look into; `parts`
+    keeps the literal pieces and the evaluated values for models that need to
+    recognise a name (e.g. a path built from a directory and a number)"""
+
+    def __init__(self, parts=()):
+        self.parts = list(parts)
+
+    def flat(self):
+        out = []
+        for p in self.parts:
+            out.extend(p.flat() if isinstance(p, OpaqueStr) else [p])
+        return out
 
     def __repr__(self):
         return "<opaque str>"
@@ -125,7 +136,12 @@ def function_ast(pyfunc):
     """AST of a real function, from its source file as it is on disk now"""
     key = pyfunc
     if key not in _AST_CACHE:
-        src = textwrap.dedent(inspect.getsource(pyfunc))
+        try:
+            src = textwrap.dedent(inspect.getsource(pyfunc))
+        except (OSError, TypeError):
+            from .ops import OutOfReach as _OOR
+            raise _OOR(f"no source for {getattr(pyfunc, '__module__', '?')}."
+                       f"{getattr(pyfunc, '__qualname__', pyfunc)} and no model of it")
         tree = ast.parse(src)
         node = tree.body[0]
         _AST_CACHE[key] = (node, src)
@@ -177,9 +193,10 @@ class Executor:
             raise PathEnd()
         self.pc.append(t)
 
-    def check(self, name, goal, text=""):
+    def check(self, name, goal, text="", assume=True):
         """record a proof obligation under the current path condition and
-        continue as if it held"""
+        continue as if it held (assume=False for canaries: a clause that is
+        wrong on purpose must not cut the path it is refuted on)"""
         if isinstance(goal, bool):
             goal = z3.BoolVal(goal)
         elif isinstance(goal, Sym):
@@ -187,7 +204,7 @@ class Executor:
         self.obligations.append((name, list(self.pc), goal, text,
                                  list(self.notes)))
         c = concrete_bool(goal)
-        if c is not True:
+        if c is not True and assume:
             self.pc.append(goal)
 
     def check_internal(self, what, goal):
@@ -586,6 +603,7 @@ class Executor:
         # the text is not modelled, but the pieces are evaluated (they may
         # raise), and formatting None with a format specification is a
         # TypeError (NoneType.__format__ accepts only the empty one)
+        parts = []
         for part in node.values:
             if isinstance(part, ast.FormattedValue):
                 v = self.eval(part.value, frame)
@@ -593,7 +611,10 @@ class Executor:
                 if spec is not None and any(not (isinstance(x, ast.Constant) and x.value == "")
                                             for x in spec.values) and v is None:
                     self.raise_builtin(TypeError, "unsupported format string passed to NoneType.__format__")
-        return OpaqueStr()
+                parts.append(v)
+            elif isinstance(part, ast.Constant):
+                parts.append(part.value)
+        return OpaqueStr(parts)
 
     @staticmethod
     def mangle(name, frame):
@@ -752,7 +773,7 @@ class Executor:
             if isinstance(a, str) and isinstance(b, str):
                 return a + b
             if isinstance(a, (str, OpaqueStr)) and isinstance(b, (str, OpaqueStr)):
-                return OpaqueStr()
+                return OpaqueStr([a, b])
         if op == "*":
             if is_byteslike(a) and ops.is_intlike(b):
                 return self.bytes_repeat(a, b)
